@@ -96,6 +96,18 @@ def mutate(rng, s):
     return s[:i] + rng.choice("+-_:,;=.kKé") + s[i:]
 
 
+def tame(s):
+    """core ranges wider than 2000 ids are replaced: the real code (push + sort + dedup per id) and the model's
+    sorted insertion are quadratic in the range width, which only costs time"""
+    def f(m):
+        try:
+            a, b = int(m.group(1)), int(m.group(2))
+        except ValueError:
+            return m.group(0)
+        return m.group(0) if b - a <= 2000 else f"{a}-{a + 3}"
+    return re.sub(r"([0-9]+)-\+?([0-9]+)", f, s)
+
+
 def value_for(rng, name, ncpus):
     if name in BOOLS:
         return rng.choice(["true", "false", "true", "false", "True", "1", "0", "yes", ""])
@@ -176,7 +188,7 @@ class Spec(unit.UnitSpec):
                 f"cfg opts_env {e['ncpus']} {e['threads']} {e['heap']} {e['perf']} {e['wps']} {e['linux']}"]
 
     def gen(self, rng, tier, debug):
-        n = 500 if tier == "quick" else 30000
+        n = 500 if tier == "quick" else 8000
         ncpus = int((self.env or {}).get("ncpus", 16))
         cases = []
         for i in range(n):
@@ -187,6 +199,7 @@ class Spec(unit.UnitSpec):
                 val = value_for(rng, name, ncpus)
                 if rng.random() < 0.4:
                     val = mutate(rng, val)
+                val = tame(val)
                 if r < 0.55:
                     key = name
                     if rng.random() < 0.08:
@@ -207,13 +220,13 @@ class Spec(unit.UnitSpec):
                     s = sep.join(pairs)
                     if rng.random() < 0.1:
                         s = rng.choice(["", " ", ",", s + ",", " " + s])
-                    ops.append(f"opts bulk {x(s)}")
+                    ops.append(f"opts bulk {x(tame(s))}")
                 else:
                     kind = rng.choice(["trigger", "nursery", "cpulist"])
                     v = value_for(rng, {"trigger": "gc_trigger", "nursery": "nursery", "cpulist": "thread_affinity"}[kind], ncpus)
                     if rng.random() < 0.5:
                         v = mutate(rng, v)
-                    ops.append(f"opts {kind} {x(v)}")
+                    ops.append(f"opts {kind} {x(tame(v))}")
             cases.append(Case(ops))
         cases.append(Case(["opts reset", "opts frob", "opts set x", "opts bulk"]))
         return cases
